@@ -2,13 +2,15 @@
    cong n a b  is  a = b (mod n)  (n | a - b).  The statements are the `..._stmt` definitions of the Proofs files.
    `_partial` = a finite kernel sweep (bound in the statement) of a statement whose full form is kept in ProofsSweep.v. *)
 From Coq Require Import ZArith Znumtheory List.
-From C13 Require Import Model ProofsBase ProofsSqrt ProofsLift ProofsNumTheo ProofsSweep.
+From C13 Require Import Model ProofsBase ProofsSqrt ProofsLift ProofsNumTheo ProofsOrder ProofsLogp ProofsPow2 ProofsPk ProofsSweep.
 Local Open Scope Z_scope.
 
 Theorem C13_powmod_is_power_mod : forall n a e, 0 < n -> 0 <= e -> powmod a e n = a ^ e mod n.   Proof. exact powmod_spec. Qed.
 Print Assumptions C13_powmod_is_power_mod.
 Theorem C13_invmod_checked_inverse : forall a n, fst (egcd a n) = 1 -> cong n (a * invmod a n) 1.  Proof. exact invmod_sound. Qed.
 Print Assumptions C13_invmod_checked_inverse.
+Theorem C13_invmod_of_unit_is_inverse : Invmod_spec_stmt.            Proof. exact invmod_spec. Qed.
+Print Assumptions C13_invmod_of_unit_is_inverse.
 Theorem C13_sqrt_p_3_mod_4 : Sqrt_3mod4_stmt.                        Proof. exact sqrt_3mod4_correct. Qed.
 Print Assumptions C13_sqrt_p_3_mod_4.
 Theorem C13_sqrt_atkin_5_mod_8 : Sqrt_atkin_stmt.                    Proof. exact sqrt_atkin_correct. Qed.
@@ -45,6 +47,8 @@ Theorem C13_order_certificate_is_least : Order_minimal_stmt.         Proof. exac
 Print Assumptions C13_order_certificate_is_least.
 Theorem C13_order_strip_loop_sound : Strip_while_stmt.               Proof. exact strip_while_sound. Qed.
 Print Assumptions C13_order_strip_loop_sound.
+Theorem C13_order_is_multiplicative_order : Order_correct_stmt.      Proof. exact order_correct. Qed.
+Print Assumptions C13_order_is_multiplicative_order.
 Theorem C13_is_prim_root_tests : Is_prim_root_stmt.                  Proof. exact is_prim_root_spec. Qed.
 Print Assumptions C13_is_prim_root_tests.
 Theorem C13_prim_root_has_order_phi : Prim_root_order_stmt.          Proof. exact prim_root_order. Qed.
@@ -61,5 +65,9 @@ Theorem C13_sqrootmodprimepower_end_to_end_partial : Sqrootmodprimepower_sweep_s
 Print Assumptions C13_sqrootmodprimepower_end_to_end_partial.
 Theorem C13_brillhart_two_squares_partial : Brillhart_sweep_stmt.    Proof. exact brillhart_sweep. Qed.
 Print Assumptions C13_brillhart_two_squares_partial.
-Theorem C13_logp_bracket_partial : Logp_sweep_stmt.                  Proof. exact logp_sweep. Qed.
-Print Assumptions C13_logp_bracket_partial.
+Theorem C13_logp_is_floor_log : Logp_correct_stmt.                   Proof. exact logp_correct. Qed.
+Print Assumptions C13_logp_is_floor_log.
+Theorem C13_sqrootmodpoweroftwo_sound : Sqrootmodpoweroftwo_sound_stmt.   Proof. exact sqrootmodpoweroftwo_sound. Qed.
+Print Assumptions C13_sqrootmodpoweroftwo_sound.
+Theorem C13_sqrootmodprimepower_sound : Sqrootmodprimepower_sound_stmt.   Proof. exact sqrootmodprimepower_sound. Qed.
+Print Assumptions C13_sqrootmodprimepower_sound.
